@@ -24,7 +24,7 @@ def evaluate(case):
         label = "%s %s cfg=%s" % (case["kind"], "+".join(case["names"]), json.dumps(cfg, sort_keys=True))
         if r.timeout or r.crashed or r.rc != 0 or not os.path.exists(img):
             return dict(status="noimage", rc=r.rc)     # C01/C04/C07 judge this; C03 speaks about produced images
-        im, err = packcheck.decode(img, want_content=True)
+        im, err = packcheck.decode(img, want_content=True, dev_block=(cfg.get("B", 4096) if isinstance(cfg, dict) else 4096))
         files = None
 
         def mkfiles():
